@@ -122,6 +122,15 @@ func (x *fx) pkListP(name string) param {
 		{C: "[bls,bls,bls,bls]", V: []crypto.PublicKey{b[0], b[1], b[2], b[0]}},
 		{C: "[identity]", V: []crypto.PublicKey{x.idPK}},
 		{C: "[bls,bls,bls,bls (same)]", V: []crypto.PublicKey{b[0], b[0], b[0], b[0]}},
+		// nil INTERFACE elements, at every position of short lists and as the only element (single-element
+		// shortcuts skip the loop that validates the list)
+		{C: "[nil]", V: []crypto.PublicKey{nil}, Rej: true},
+		{C: "[nil,nil,nil]", V: []crypto.PublicKey{nil, nil, nil}, Rej: true},
+		{C: "[nil,bls,bls]", V: []crypto.PublicKey{nil, b[1], b[2]}, Rej: true},
+		{C: "[bls,nil,bls]", V: []crypto.PublicKey{b[0], nil, b[2]}, Rej: true},
+		{C: "[bls,bls,nil]", V: []crypto.PublicKey{b[0], b[1], nil}, Rej: true},
+		{C: "[bls,nil]", V: []crypto.PublicKey{b[0], nil}, Rej: true},
+		{C: "[ecdsa,ecdsa,ecdsa]", V: []crypto.PublicKey{p, p, p}},
 	}}
 }
 func pkl(a any) []crypto.PublicKey { return a.([]crypto.PublicKey) }
@@ -379,7 +388,9 @@ func buildTable(x *fx) []*fn {
 			val{C: "nil", V: []crypto.PrivateKey(nil), Rej: true}, val{C: "empty", V: []crypto.PrivateKey{}, Rej: true},
 			val{C: "[bls]", V: []crypto.PrivateKey{b0}}, val{C: "[bls,bls,bls]", V: []crypto.PrivateKey{b0, b1, b2}},
 			val{C: "[bls,ecdsa,bls]", V: []crypto.PrivateKey{b0, x.p256SK, b2}, Rej: true}, val{C: "[ecdsa]", V: []crypto.PrivateKey{x.k1SK}, Rej: true},
-			val{C: "[bls,bls-identity]", V: []crypto.PrivateKey{b0, x.zeroSK}}, val{C: "[bls,same-bls]", V: []crypto.PrivateKey{b0, b0}})},
+			val{C: "[bls,bls-identity]", V: []crypto.PrivateKey{b0, x.zeroSK}}, val{C: "[bls,same-bls]", V: []crypto.PrivateKey{b0, b0}},
+			val{C: "[nil]", V: []crypto.PrivateKey{nil}, Rej: true}, val{C: "[bls,nil,bls]", V: []crypto.PrivateKey{b0, nil, b2}, Rej: true},
+			val{C: "[nil,bls]", V: []crypto.PrivateKey{nil, b1}, Rej: true}, val{C: "[bls,nil]", V: []crypto.PrivateKey{b0, nil}, Rej: true})},
 		Call: func(a []any) res {
 			sk, err := crypto.AggregateBLSPrivateKeys(a[0].([]crypto.PrivateKey))
 			if err == nil {
@@ -431,6 +442,7 @@ func buildTable(x *fx) []*fn {
 		must(b0.Sign(x.msg, x.kmac())), must(b1.Sign(m1, x.kmac())), must(b2.Sign(m2, x.kmac()))}))
 	type hl = []func() hash.Hasher
 	k, k127, s3 := x.kmac, mustKMAC(127), hash.NewSHA3_256
+	nilH := func() hash.Hasher { return nil }
 	add(&fn{Name: "VerifyBLSSignatureManyMessages", Covers: []string{"crypto.VerifyBLSSignatureManyMessages"}, Cost: 6,
 		Params: []param{x.pkListP("pks"), bytesP("s", sigMany, true, true, aggExtra...),
 			listP("messages", 5, val{C: "nil", V: [][]byte(nil)}, val{C: "empty", V: [][]byte{}}, val{C: "[nil,nil,nil]", V: [][]byte{nil, nil, nil}},
@@ -439,7 +451,8 @@ func buildTable(x *fx) []*fn {
 				val{C: "[m0,empty,4KiB]", V: [][]byte{x.msg, {}, big}}, val{C: "[m0,m1,m2,m0]", V: [][]byte{x.msg, m1, m2, x.msg}}),
 			listP("hashers", 3, val{C: "nil", V: hl(nil)}, val{C: "empty", V: hl{}}, val{C: "[xof]", V: hl{k}}, val{C: "[xof,xof,xof]", V: hl{k, k, k}},
 				val{C: "[xof,xof]", V: hl{k, k}}, val{C: "[xof,sha3_256,xof]", V: hl{k, s3, k}}, val{C: "[kmac127B,kmac127B,kmac127B]", V: hl{k127, k127, k127}},
-				val{C: "[xof,xof,xof,xof]", V: hl{k, k, k, k}}, val{C: "[xof,xof,kmac128B-otherkey]", V: hl{k, k, mustKMAC(128)}})},
+				val{C: "[xof,xof,xof,xof]", V: hl{k, k, k, k}}, val{C: "[xof,xof,kmac128B-otherkey]", V: hl{k, k, mustKMAC(128)}},
+				val{C: "[nil]", V: hl{nilH}}, val{C: "[xof,nil,xof]", V: hl{k, nilH, k}}, val{C: "[nil,nil,nil]", V: hl{nilH, nilH, nilH}}, val{C: "[xof,xof,nil]", V: hl{k, k, nilH}})},
 		Rej: func(a []any) bool {
 			n := len(pkl(a[0]))
 			return n == 0 || hasNonBLS(pkl(a[0])) || n != len(a[2].([][]byte)) || n != len(a[3].(hl))
